@@ -311,6 +311,7 @@ fn run_c08(t: &mut Tape, _tier: Tier) -> RunOut {
             mix.max_concurrent = 3;
             mix.exec.spurious_one_in = 12;
             mix.exec.cancel_one_in = 30;
+            mix.body_fault_one_in = 10;
             mix.node.odd_scopes = true;
             mix.req.big_body_one_in = 30;
             mix.req.form_focus = t.chance(2);
@@ -344,6 +345,7 @@ fn run_c08(t: &mut Tape, _tier: Tier) -> RunOut {
                 }
                 let (m, _, _, _) = crate::direct::known_fixture();
                 planned.push(Planned {
+                    body_script: Default::default(),
                     origin: None,
                     msg: m,
                     node_ix: i,
@@ -1285,6 +1287,7 @@ fn c19_world(t: &mut Tape, forced: Option<(usize, bool)>) -> RunOut {
             permute_pairs: false,
         });
         planned.push(Planned {
+            body_script: Default::default(),
             origin: Some(origin),
             msg: m,
             node_ix: 0,
